@@ -9,6 +9,7 @@
 #include <cerrno>
 #include <csignal>
 #include <chrono>
+#include <condition_variable>
 #include <cstdlib>
 #include <cstring>
 #include <filesystem>
@@ -492,7 +493,7 @@ void Session::remove(Torrent* t) {
 
 torrent::PeerConnectionBase* Session::find_connection(Torrent* t, const std::string& peer_ip, uint16_t peer_port) {
   uint32_t want = ip_of(peer_ip);
-  for (torrent::Peer* p : *t->dl.connection_list()) {
+  for (auto* p : *t->dl.connection_list()) {   // element type not spelled: survives container refactors
     torrent::PeerConnectionBase* pcb = p->m_ptr();
     if (pcb->file_descriptor() < 0) continue;
     io_key k = remote_end(pcb->file_descriptor());
@@ -531,7 +532,7 @@ static const char* state_name(int s) {
 
 std::string Session::dump_upload_queue(torrent::PeerConnectionBase* pcb) {
   std::string s;
-  for (const torrent::Piece& p : *pcb->m_peer_chunks.upload_queue()) {
+  for (const auto& p : *pcb->m_peer_chunks.upload_queue()) {
     if (!s.empty()) s += ",";
     s += std::to_string(p.index()) + ":" + std::to_string(p.offset()) + ":" + std::to_string(p.length());
   }
@@ -566,19 +567,48 @@ std::string Session::dump_torrent(Torrent* t) {
   return o.str();
 }
 
+// ChunkList is a (privately derived) sequence of nodes: iterate it generically, never spell the base type
 std::string Session::dump_chunk_refs(Torrent* t) {
   std::string o;
-  auto* cl = t->main()->chunk_list();
-  auto* v = (std::vector<torrent::ChunkListNode>*)cl;   // private base
-  for (size_t i = 0; i < v->size(); i++)
-    if ((*v)[i].references() != 0) o += (o.empty() ? "" : ",") + std::to_string(i) + ":" + std::to_string((*v)[i].references());
+  size_t i = 0;
+  for (auto& node : *t->main()->chunk_list()) {
+    if (node.references() != 0) o += (o.empty() ? "" : ",") + std::to_string(i) + ":" + std::to_string(node.references());
+    i++;
+  }
   return o.empty() ? "-" : o;
 }
 int Session::chunk_refs_total(Torrent* t) {
   int n = 0;
-  auto* v = (std::vector<torrent::ChunkListNode>*)t->main()->chunk_list();
-  for (auto& node : *v) n += node.references();
+  for (auto& node : *t->main()->chunk_list()) n += node.references();
   return n;
+}
+
+// ---- per-case watchdog (ROBUSTNESS.md rule 5)
+struct CaseWatchdog::Impl {
+  std::mutex m;
+  std::condition_variable cv;
+  bool done = false;
+  std::thread th;
+};
+CaseWatchdog::CaseWatchdog(int seconds) : m_impl(new Impl) {
+  if (const char* e = getenv("LTV_CASE_TIMEOUT")) { int v = atoi(e); if (v > 0) seconds = v; }
+  Impl* im = m_impl;
+  im->th = std::thread([im, seconds]() {
+    std::unique_lock<std::mutex> lk(im->m);
+    if (!im->cv.wait_for(lk, std::chrono::seconds(seconds), [im]() { return im->done; })) {
+      // ltv.crash_kind recognises "TIMEOUT..."; run_sharded then records this case and goes on with the rest
+      fprintf(stderr, "TIMEOUT watchdog: case exceeded %d s (hang)\n", seconds);
+      fflush(stderr);
+      fflush(stdout);
+      _exit(4);
+    }
+  });
+}
+CaseWatchdog::~CaseWatchdog() {
+  { std::lock_guard<std::mutex> g(m_impl->m); m_impl->done = true; }
+  m_impl->cv.notify_all();
+  m_impl->th.join();
+  delete m_impl;
 }
 
 std::string Session::dump_global() {
